@@ -38,11 +38,11 @@ CHECKS = {
     "C17-seed1": ["C17"], "C17-seed2": ["C17"],
     "C18-seed1": ["C18", "C15"], "C18-seed2": ["C18"],
     "C19-seed1": ["C19", "C03"], "C19-seed2": ["C19", "C15"],
-    "C01-seed3": ["C01", "C06"], "C01-seed4": ["C01", "C11"], "C07-seed3": ["C07"], "C07-seed4": ["C07", "C02", "C01"], "C09-seed3": ["C09"], "C09-seed4": ["C09", "C11"],
-    "C15-seed3": ["C15", "C16"], "C15-seed4": ["C15", "C18"], "C19-seed3": ["C19", "C03"], "C19-seed4": ["C19", "C08"],
-    "C14-seed3": ["C14", "C19"], "C14-seed4": ["C14", "C19"], "C16-seed3": ["C16", "C19"], "C16-seed4": ["C16", "C18"],
-    "C02-seed5": ["C02", "C06"], "C02-seed6": ["C02", "C10"], "C05-seed1": ["C05"], "C05-seed2": ["C05"], "C06-seed5": ["C06"], "C06-seed6": ["C06", "C01"],
-    "C10-seed5": ["C10", "C02"], "C10-seed6": ["C10", "C06", "C02"], "C11-seed5": ["C11", "C08", "C17"], "C11-seed6": ["C11", "C10", "C02"], "C12-seed5": ["C12", "C10"], "C12-seed6": ["C12", "C10"],
+    "C01-seed3": ["C01", "C06"], "C01-seed4": ["C11"], "C07-seed3": ["C07"], "C07-seed4": ["C07", "C02", "C01"], "C09-seed3": ["C09"], "C09-seed4": ["C09", "C11"],
+    "C15-seed3": ["C15", "C16"], "C15-seed4": ["C15"], "C19-seed3": ["C19"], "C19-seed4": ["C19", "C08"],
+    "C14-seed3": ["C14", "C19"], "C14-seed4": ["C14", "C19"], "C16-seed3": ["C16"], "C16-seed4": ["C16"],
+    "C02-seed5": ["C02", "C06"], "C02-seed6": ["C10"], "C05-seed1": ["C05"], "C05-seed2": ["C05"], "C06-seed5": ["C06"], "C06-seed6": ["C06"],
+    "C10-seed5": ["C10"], "C10-seed6": ["C10", "C06", "C02"], "C11-seed5": ["C11", "C08", "C17"], "C11-seed6": ["C11", "C10", "C02"], "C12-seed5": ["C12", "C10"], "C12-seed6": ["C10"],
     "C13-seed5": ["C13", "C09"], "C13-seed6": ["C13"], "C18-seed3": ["C18", "C11", "C04"], "C18-seed4": ["C18", "C15"],
     "C17-seed3": ["C17", "C06", "C11"], "C17-seed4": ["C17", "C08", "C11"],
     "C03-seed3": ["C03", "C18"], "C13-seed3": ["C13", "C09"], "C10-seed3": ["C10", "C12"], "C12-seed3": ["C12", "C10"], "C12-seed4": ["C12", "C09"],
